@@ -479,6 +479,29 @@ func TestC01(t *testing.T) {
 					Note: "wrapping every operand of a program in parentheses changed what it prints", Expected: a.Describe(), Observed: full + "\n" + b.Describe()})
 			}
 		})
+		// parentheses around the initialisers of a literal, the arguments of a call, the operands of an index: a plain
+		// literal token in such a place is an expression like any other, with or without parentheses around it
+		c.Sub("parens-on-plain-literals", func(s *Sub) {
+			P := bn.KwPrint
+			pre := bn.KwFun + " f(t) { " + P + " t; " + bn.KwReturn + " t; }\n" + bn.KwVar + " x = 0;\n" + bn.KwVar + " arr = [1, 2, 3];\n"
+			pairs := [][2]string{
+				{P + " {a: f(1), a: 7}.a;", P + " {a: (f(1)), a: (7)}.a;"},
+				{"x = {k: x = 5, m: 1, k: \"s\"};\n" + P + " x.k;", "x = {k: (x = 5), m: (1), k: (\"s\")};\n" + P + " x.k;"},
+				{P + " {a: f(1), b: 2, a: nil, b: f(3)};", P + " {a: (f(1)), b: (2), a: (nil), b: (f(3))};"},
+				{P + " [f(1), 2, f(3)][1];", P + " [(f(1)), (2), (f(3))][(1)];"},
+				{P + " f(2) + 3 * f(4);", P + " (f(2)) + ((3) * (f(4)));"},
+				{P + " arr[f(1)] + 10;", P + " (arr[(f(1))]) + (10);"},
+				{P + " -f(1) ** 2;", P + " ((-(f(1))) ** (2));"},
+				{bn.KwIf + " (f(0)) " + P + " 1; " + bn.KwElse + " " + P + " 2;", bn.KwIf + " ((f(0))) " + P + " (1); " + bn.KwElse + " " + P + " (2);"},
+				{P + " {a: 1, a: f(2), a: 3}.a;", P + " {a: (1), a: (f(2)), a: (3)}.a;"},
+				{P + " f(1) " + bn.KwOr + " 7;", P + " (f(1)) " + bn.KwOr + " (7);"},
+			}
+			for i, pr := range pairs {
+				if c.Mine(int64(i)) {
+					c.c01Parens(s, pre+pr[0]+"\n"+P+" x;\n", pre+pr[1]+"\n"+P+" x;\n")
+				}
+			}
+		})
 		c.Rapid("rand-parens-behaviour", m, func(rt *rapid.T, s *Sub) {
 			e := genArith(rt, rapid.IntRange(1, 5).Draw(rt, "depth"))
 			prog := []bn.Stmt{&bn.Print{E: e}}
